@@ -11,7 +11,7 @@
    on [trap], on the peers or on the validity of the headers is needed. *)
 From stdpp Require Import list.
 From Coq Require Import ZArith Lia.
-From Verif Require Import S2.Model C19.Spec C19.Statements C19.Proofs.
+From Verif Require Import S2.Model C19.Spec C19.Statements C19.Moments C19.Proofs C19.ProofsM.
 Open Scope Z_scope.
 
 (* C19.1 — the events appended by ONE operation, exactly.  Either
@@ -94,6 +94,41 @@ Theorem C19_backlog_then_events : forall P gfh ops1 ops2 h, in_domain (ops1 ++ o
 Proof. exact backlog_then_events. Qed.
 Print Assumptions C19_backlog_then_events.
 
+(* C19.5 — a backlog requested at ANY moment, also in the middle of an
+   operation.  The notification channel is unbuffered and the subscription
+   manager asks for the backlog from the goroutine that consumes it, so the
+   request can arrive while the block manager is blocked handing over event k
+   of the events [evs] of the running operation o (events 0..k-1 delivered;
+   k = length evs: o has returned).  [moment_state s s' k] (C19/Moments.v) is
+   the block-manager state at that moment and [committed_at] (C19/Spec.v) the
+   committed chain at that moment in the vocabulary of the property.  For
+   every operation applied in every reachable state and every moment k of it:
+   the committed chain of the moment state is [committed_at ...] (= [cm]), it
+   is non-empty and the in-memory filter tip is its height; for every height
+   h >= 0 NotificationsSinceHeight answers exactly as C19.3 says for [cm]
+   (the backlog for 0 < h <= tip is exactly the committed blocks above h AT
+   THAT MOMENT); and a subscriber that holds the committed chain up to such an
+   h, is handed that backlog and then receives the REMAINING events
+   [drop k evs] of the operation ends with exactly the committed chain after
+   the operation (connected events for blocks it already holds are skipped,
+   no event of the replay is rejected).  With C19.4 applied to the state after
+   o this extends to all later operations. *)
+Theorem C19_backlog_any_moment : forall P gfh ops o k h, in_domain (ops ++ [o]) ->
+  let s := reach P gfh ops in let s' := step P s o in
+  let evs := op_events s s' in
+  (k <= length evs)%nat ->
+  let m := moment_state s s' k in
+  let cm := committed_at (committed_of s) (committed_of s') evs k in
+  committed_of m = cm /\ ftipVar m = zlen cm - 1 /\ 1 <= zlen cm /\
+  (0 <= h -> notifs_at_moment s s' k h =
+     if h =? 0 then Some ([], zlen cm - 1)
+     else if h <=? zlen cm - 1 then Some (moment_backlog cm h, zlen cm - 1) else None) /\
+  (0 < h <= zlen cm - 1 ->
+     replay (take (zn h + 1) cm) (map conn_of (moment_backlog cm h) ++ drop k evs) =
+       Some (committed_of s')).
+Proof. exact backlog_any_moment. Qed.
+Print Assumptions C19_backlog_any_moment.
+
 (* Non-vacuity: a peer, two header batches and two filter-header batches
    (heights 1-2, then 3-4 of a chain of height 6); a 4-header branch forking
    at height 3 that removes block 4 (filter header committed) and blocks 5, 6
@@ -137,4 +172,45 @@ Example C19_nonvacuous :
   notifs_since 2 s3 = Some ([(4, 3); (105, 4); (106, 5)], 5) /\
   replay [1; 2; 3] (map conn_of [(4, 3); (5, 4)] ++ drop (length (events s1)) (events s3)) =
     Some [1; 2; 3; 4; 105; 106].
+Proof. split; [vm_compute; reflexivity|]. vm_compute. repeat split; reflexivity. Qed.
+
+(* Non-vacuity of C19.5: a filter-header batch of four blocks (heights 1-4 of
+   a chain of height 6) probed after two of its four connected events; then a
+   5-header branch forking at height 2 that removes blocks 3, 4 (filter header
+   committed) and 5, 6 (not committed), probed while the manager is blocked on
+   the third and on the fourth of its four disconnected events. *)
+Definition nvm_ops : list op :=
+  [ ONewPeer 1 0 100 true;
+    OHeaders 1 2000 [nv_hdr 2 1 1010; nv_hdr 3 2 1020; nv_hdr 4 3 1030];
+    OHeaders 1 2000 [nv_hdr 5 4 1040; nv_hdr 6 5 1050; nv_hdr 7 6 1060] ].
+Definition nvm_cf : op := OWriteCF 900 [901; 902; 903; 904] 5.
+Definition nvm_reorg : op :=
+  OHeaders 1 2000 [nv_hdr 104 3 1031; nv_hdr 105 104 1041; nv_hdr 106 105 1051; nv_hdr 107 106 1061; nv_hdr 108 107 1071].
+
+Example C19_moments_nonvacuous :
+  in_domain ((nvm_ops ++ [nvm_cf]) ++ [nvm_reorg]) /\
+  let s0 := reach nv_P 900 nvm_ops in
+  let s1 := step nv_P s0 nvm_cf in
+  let s2 := step nv_P s1 nvm_reorg in
+  (* the batch: four connected events; in the middle (k = 2) the committed
+     chain is already the final one and the backlog for height 1 covers the
+     two blocks already announced and the two still to come *)
+  op_events s0 s1 = [EConn 2 1; EConn 3 2; EConn 4 3; EConn 5 4] /\
+  committed_at (committed_of s0) (committed_of s1) (op_events s0 s1) 2 = [1; 2; 3; 4; 5] /\
+  notifs_at_moment s0 s1 2 1 = Some ([(3, 2); (4, 3); (5, 4)], 4) /\
+  replay [1; 2] (map conn_of [(3, 2); (4, 3); (5, 4)] ++ drop 2 (op_events s0 s1)) = Some [1; 2; 3; 4; 5] /\
+  (* the reorganisation: four disconnected events, two of them for committed blocks *)
+  op_events s1 s2 = [EDisc 7 6 6; EDisc 6 5 5; EDisc 5 4 4; EDisc 4 3 3] /\
+  map hid (chain s2) = [1; 2; 3; 104; 105; 106; 107; 108] /\ committed_of s2 = [1; 2; 3] /\
+  (* blocked on the third event: block 4 (height 3) is still committed *)
+  committed_at (committed_of s1) (committed_of s2) (op_events s1 s2) 2 = [1; 2; 3; 4] /\
+  notifs_at_moment s1 s2 2 2 = Some ([(4, 3)], 3) /\ notifs_at_moment s1 s2 2 4 = None /\
+  replay [1; 2; 3] (map conn_of [(4, 3)] ++ drop 2 (op_events s1 s2)) = Some [1; 2; 3] /\
+  (* blocked on the fourth event *)
+  committed_at (committed_of s1) (committed_of s2) (op_events s1 s2) 3 = [1; 2; 3] /\
+  notifs_at_moment s1 s2 3 1 = Some ([(3, 2)], 2) /\
+  replay [1; 2] (map conn_of [(3, 2)] ++ drop 3 (op_events s1 s2)) = Some [1; 2; 3] /\
+  (* before the first event nothing has been rolled back; after the last one the state is s2 *)
+  notifs_at_moment s1 s2 0 1 = Some ([(3, 2); (4, 3); (5, 4)], 4) /\
+  moment_state s1 s2 4 = s2.
 Proof. split; [vm_compute; reflexivity|]. vm_compute. repeat split; reflexivity. Qed.
